@@ -333,6 +333,12 @@ pub fn run(ctx: &Ctx) -> Outcome {
     }
     util::remove_dir(&root);
     clock::unfreeze_wall();
+    // buffer-model lane (see c06.rs): every buffered batch keeps the WAL sequence number it was appended with
+    let histories: u64 = if ctx.thorough { 14 * 20_000 } else { 8_000 };
+    for idx in ctx.my_cases(histories) {
+        let mut brng = ctx.rng("C01-buffer", idx);
+        crate::checks::c06::buffer_history(ctx, &mut out, &mut brng, idx, "C01");
+    }
     out
 }
 
